@@ -28,7 +28,7 @@ func init() {
 			"C09.9 results of accessors that can be nil (GetAllocation, GetChannelByNumber, FindAddrByChannelNumber, …) are not dereferenced on a path that has not tested them; " +
 			"C09.10 no function with an interface result returns a nil pointer of a concrete type boxed into it (the caller's != nil test would pass and the first method call crash); " +
 			"C09.11 a channel held in a struct field that some function closes is sent on only under a lock that every close of it holds too (a send racing the close panics); " +
-			"make([]T, n, c) with an input-dependent n has 0 ≤ n ≤ c. C09.12 deadline sites (armed ⇒ lifted); C09.13 a goroutine gives back its semaphore slot on every path. C09.14 a failed read ends Server.readLoop.",
+			"make([]T, n, c) with an input-dependent n has 0 ≤ n ≤ c. C09.12 deadline sites (armed ⇒ lifted); C09.13 a goroutine gives back its semaphore slot on every path. C09.14 a failed read ends Server.readLoop. C09.15 (=C10.8) the stream framer refuses only with Read's or the frame scanner's own error.",
 		NotCovered: "totality of pion/stun's decoder (outside the module), nil dereferences in general, CPU/memory exhaustion, the liveness probe itself.",
 		Run:        runC09,
 	})
@@ -96,6 +96,7 @@ func runC09(c *Ctx) {
 	ruleDeadlineSites(c, "C09.12")
 	ruleSemaphoreReleased(c, "C09.13")
 	ruleReadLoopEndsOnError(c, "C09.14")
+	ruleFramerRefusals(c, "C09.15")
 }
 
 // ---------------------------------------------------------------------------------
